@@ -20,7 +20,7 @@ ASSUMPTIONS = [
 ]
 MONITORS = "multiset of (key, type) reported by diff() vs flat reference; rename pair validity and maximality; self-diff / swap / conservation relations on the implementation's own outputs"
 REQUIRED_COUNTERS = ["two_handle_diffs", "inplace_history_diffs", "inplace_adds_through_new_directories", "unknown_directory_diffs", "keys_reported_unknown", "meta_cmp_key_projecting_to_none_diffs", "diffs", "with_renames_diffs", "renames_seen", "shortcut_diffs", "shortcut_branches_skipped", "kind_change_pairs",
-                     "self_diffs", "swap_relations", "one_side_none", "shallow_diffs", "roots_diffs", "changes_classified", "meta_cmp_key_diffs"]
+                     "diffs_before_and_after_the_storage_is_attached", "self_diffs", "swap_relations", "one_side_none", "shallow_diffs", "roots_diffs", "changes_classified", "meta_cmp_key_diffs"]
 
 ADD, MODIFY, RENAME, DELETE, UNCHANGED = "add", "modify", "rename", "delete", "unchanged"
 
@@ -574,7 +574,53 @@ def run_shard(ctx):
             r.close()
             ctx.drop(d)
 
-        if case % 40 == 13:
+        def late_storage(case=case, rng=rng):
+            """an index holding a directory as an unloaded entry is diffed once before anything says where its objects are stored, then the
+            storage is attached and the same handles are diffed again: the directory's files are there to compare now"""
+            import os
+
+            from dvc_data.hashfile.tree import Tree
+            from dvc_data.index import ObjectStorage
+
+            from .. import env
+
+            d = ctx.fresh("ls")
+            odb = env.local_odb(os.path.join(d, "odb"))
+            top = gen.name(rng) + "-dir"
+            t = Tree()
+            full = DataIndex()
+            fkeys = []
+            for i in range(rng.randrange(1, 6)):
+                rel = (gen.name(rng, odd=0.2) + str(i),) if rng.random() < 0.7 else ("sub", gen.name(rng, odd=0.2) + str(i))
+                h = "%032x" % rng.getrandbits(64)
+                t.add(rel, Meta(size=i + 1), HashInfo("md5", h))
+                full[(top, *rel)] = DataIndexEntry(key=(top, *rel), meta=Meta(size=i + 1), hash_info=HashInfo("md5", h))
+                fkeys.append((top, *rel))
+            t.digest()
+            odb.add(t.path, t.fs, t.oid)
+            lazy = DataIndex()
+            lazy[(top,)] = DataIndexEntry(key=(top,), meta=Meta(isdir=True), hash_info=t.hash_info)
+            side = rng.choice(["old", "new"])
+            a, b = (lazy, full) if side == "old" else (full, lazy)
+            res.evaluated()
+            res.count("diffs")
+            res.count("diffs_before_and_after_the_storage_is_attached")
+            run_diff(a, b, hash_only=True, with_unchanged=True)
+            if rng.random() < 0.5:
+                list(lazy.ls((top,), detail=False))
+            lazy.storage_map.add_cache(ObjectStorage((), odb))
+            got = run_diff(a, b, hash_only=True, with_unchanged=True)
+            res.nontrivial("late-storage", side, sorted(fkeys))
+            bad = sorted(ch_key(c) for c in got if ch_key(c) in fkeys and c.typ != UNCHANGED)
+            missing = sorted(set(fkeys) - {ch_key(c) for c in got})
+            if bad or missing:
+                res.violation("misclassified/after-storage-was-attached", f"after the storage was attached to the index holding {top} unloaded ({side} side), its files compare as "
+                              f"{[(k, [c.typ for c in got if ch_key(c) == k]) for k in bad[:2]]} missing={missing[:2]} instead of unchanged", case=case, detail={"side": side})
+            ctx.drop(d)
+
+        if case % 40 == 17:
+            ctx.guard(case, late_storage)
+        elif case % 40 == 13:
             ctx.guard(case, two_handles)
         elif case % 10 == 3:
             ctx.guard(case, inplace)
